@@ -117,27 +117,38 @@ func (c C12) Run(t *tape.Tape, opt core.RunOpt) (res core.Result) {
 		req  int
 		resp string
 	}
-	results := make([][]slot, ntasks)
+	// the plan (which task resolves which requests) is drawn once; every pass
+	// executes it on a fresh cold root
+	taskReqs := make([][]int, ntasks)
 	var plan []string
 	for ti := 0; ti < ntasks; ti++ {
-		ti := ti
 		n := 1 + t.Draw(3)
 		idxs := make([]int, n)
 		for k := range idxs {
 			idxs[k] = t.Draw(len(pool))
 		}
+		taskReqs[ti] = idxs
 		plan = append(plan, "t"+strconv.Itoa(ti)+": requests "+fmt.Sprint(idxs))
-		s.Go("t"+strconv.Itoa(ti), func(tk *sched.Task) {
-			for _, ri := range idxs {
-				r := pool[ri]
-				s.Stamp("invoke|req"+strconv.Itoa(ri), "call")
-				out := resolveLite(z.Root, r, copyVars(r.Vars))
-				s.Stamp("return|req"+strconv.Itoa(ri), "call")
-				results[ti] = append(results[ti], slot{req: ri, resp: out})
-			}
-		})
 	}
-	races := runScheduled(s)
+	var results [][]slot
+	pass := func(zr *workload.Zoo, sc *sched.Sched) []raceReport {
+		results = make([][]slot, ntasks)
+		for ti := 0; ti < ntasks; ti++ {
+			ti := ti
+			idxs := taskReqs[ti]
+			sc.Go("t"+strconv.Itoa(ti), func(tk *sched.Task) {
+				for _, ri := range idxs {
+					r := pool[ri]
+					sc.Stamp("invoke|req"+strconv.Itoa(ri), "call")
+					out := resolveLite(zr.Root, r, copyVars(r.Vars))
+					sc.Stamp("return|req"+strconv.Itoa(ri), "call")
+					results[ti] = append(results[ti], slot{req: ri, resp: out})
+				}
+			})
+		}
+		return runScheduled(sc)
+	}
+	races := pass(z, s)
 	res.Evaluations = 1
 	res.Steps = s.Steps
 	var srcs []string
@@ -168,6 +179,41 @@ func (c C12) Run(t *tape.Tape, opt core.RunOpt) (res core.Result) {
 	schedVerdicts(&res, "C12", s, races)
 	if s.Deadlock != "" || s.Runaway || res.Fatal != "" {
 		return
+	}
+	// Deadlock-directed passes: if two tasks took two locks in opposite orders
+	// (without a common guard) the run is repeated on a fresh cold root with the
+	// scheduler holding the first task back between its two acquisitions until
+	// the second one holds its first lock. Only a deadlock that really happens
+	// is reported.
+	cycles := s.LockCycles()
+	res.Count("probe_lock_order_inversions_seen", len(cycles))
+	for ci, cyc := range cycles {
+		if ci >= 2 {
+			break
+		}
+		cyc := cyc
+		z2, err := workload.NewZoo(q, strat)
+		if err != nil {
+			res.Fatal = err.Error()
+			return
+		}
+		cfg2 := cfg
+		cfg2.Direct = &cyc
+		s2 := sched.New(t, cfg2)
+		races2 := pass(z2, s2)
+		res.Evaluations++
+		res.Steps += s2.Steps
+		res.Count("probe_deadlock_directed_passes", 1)
+		if s2.Deadlock != "" {
+			if opt.WantSample {
+				if m, ok := res.Sample.(map[string]interface{}); ok {
+					m["directed_pass"] = fmt.Sprintf("task %d held back between %s and %s until task %d holds %s", cyc.TaskA, cyc.First, cyc.Second, cyc.TaskB, cyc.Second)
+					m["directed_schedule"] = s2.Trace(80)
+				}
+			}
+			schedVerdicts(&res, "C12", s2, races2)
+			return
+		}
 	}
 	for ti := range results {
 		for _, sl := range results[ti] {
